@@ -21,7 +21,8 @@ Record oev := { k : okind; em : list oemit; ret : list (Z * Z * Z) }.
 Definition MARGIN : Z := 300.
 
 Record track := { t_id : Z; t_copies : Z; t_elapsed : Z; t_stopped : bool; t_ticked : bool;
-                  t_acked : bool; t_dl : option Z; t_resp : option Z; t_done : bool }.
+                  t_acked : bool; t_dl : option Z; t_resp : option Z; t_done : bool;
+                  t_dead : bool (* found exhausted by a tick *) }.
 
 Definition upd (l : list track) (id : Z) (f : track -> track) : list track :=
   map (fun t => if t_id t =? id then f t else t) l.
@@ -39,7 +40,10 @@ Definition has_ret (r : list (Z * Z * Z)) (id res code : Z) : bool :=
 
 (* classes: 1 too many copies; 2 copy not byte-identical; 3 re-send too early (or outside a tick);
    4 copy after ack/reset/cancel/return; 5 response arrived in time but the call did not succeed with it;
-   6 success without a matching response *)
+   6 success without a matching response; 7 success although the attempts were exhausted.
+   (A Reset releases the writer exactly as an acknowledgement does, and the call goes on waiting for a
+   response by token; a response that the peer sends after its own Reset is returned. The Reset itself
+   never becomes a response - class 6 - and that is how the reset clause is read here.) *)
 Fixpoint copies_ok (ack maxrt : Z) (is_tick : bool) (ts : list track) (e : list oemit) : N * list track :=
   match e with
   | [] => (0%N, ts)
@@ -53,7 +57,7 @@ Fixpoint copies_ok (ack maxrt : Z) (is_tick : bool) (ts : list track) (e : list 
           else if (1 <=? t_copies t) && (negb is_tick || (t_elapsed t <? t_copies t * ack - MARGIN)) then (3%N, ts)
           else copies_ok ack maxrt is_tick
                  (upd ts id (fun t => {| t_id := t_id t; t_copies := t_copies t + 1; t_elapsed := t_elapsed t; t_stopped := t_stopped t;
-                                         t_ticked := false; t_acked := t_acked t; t_dl := t_dl t; t_resp := t_resp t; t_done := t_done t |})) r
+                                         t_ticked := false; t_acked := t_acked t; t_dl := t_dl t; t_resp := t_resp t; t_done := t_done t; t_dead := t_dead t |})) r
       end
   | _ :: r => copies_ok ack maxrt is_tick ts r
   end.
@@ -66,15 +70,16 @@ Fixpoint rets_ok (ts : list track) (r : list (Z * Z * Z)) : N * list track :=
       | None => (6%N, ts)
       | Some t =>
           if (res =? 0) && negb (match t_resp t with Some c => c =? code | None => false end) then (6%N, ts)
+          else if (res =? 0) && t_dead t then (7%N, ts)
           else rets_ok (upd ts id (fun t => {| t_id := t_id t; t_copies := t_copies t; t_elapsed := t_elapsed t; t_stopped := true;
-                                               t_ticked := t_ticked t; t_acked := t_acked t; t_dl := t_dl t; t_resp := t_resp t; t_done := true |})) r'
+                                               t_ticked := t_ticked t; t_acked := t_acked t; t_dl := t_dl t; t_resp := t_resp t; t_done := true; t_dead := t_dead t |})) r'
       end
   end.
 
 Definition set_flags (t : track) (stopped acked : bool) (resp : option Z) : track :=
   {| t_id := t_id t; t_copies := t_copies t; t_elapsed := t_elapsed t; t_stopped := t_stopped t || stopped;
      t_ticked := t_ticked t; t_acked := t_acked t || acked; t_dl := t_dl t;
-     t_resp := match t_resp t with Some c => Some c | None => resp end; t_done := t_done t |}.
+     t_resp := match t_resp t with Some c => Some c | None => resp end; t_done := t_done t; t_dead := t_dead t |}.
 
 Definition judge (ack maxrt : Z) (ts : list track) (e : oev) : N * list track :=
   (* 1. bookkeeping that precedes the observation of this event *)
@@ -82,13 +87,15 @@ Definition judge (ack maxrt : Z) (ts : list track) (e : oev) : N * list track :=
   let ts0 :=
     match k e with
     | KSend id dl => ts ++ [{| t_id := id; t_copies := 0; t_elapsed := 0; t_stopped := false; t_ticked := false;
-                               t_acked := false; t_dl := dl; t_resp := None; t_done := false |}]
+                               t_acked := false; t_dl := dl; t_resp := None; t_done := false; t_dead := false |}]
     | KAge ms => map (fun t => if 1 <=? t_copies t then
                                  {| t_id := t_id t; t_copies := t_copies t; t_elapsed := t_elapsed t + ms; t_stopped := t_stopped t;
-                                    t_ticked := t_ticked t; t_acked := t_acked t; t_dl := t_dl t; t_resp := t_resp t; t_done := t_done t |}
+                                    t_ticked := t_ticked t; t_acked := t_acked t; t_dl := t_dl t; t_resp := t_resp t; t_done := t_done t; t_dead := t_dead t |}
                                else t) ts
     | KTick => map (fun t => {| t_id := t_id t; t_copies := t_copies t; t_elapsed := t_elapsed t; t_stopped := t_stopped t;
-                                t_ticked := true; t_acked := t_acked t; t_dl := t_dl t; t_resp := t_resp t; t_done := t_done t |}) ts
+                                t_ticked := true; t_acked := t_acked t; t_dl := t_dl t; t_resp := t_resp t; t_done := t_done t;
+                                (* all 1 + MAX_RETRANSMIT copies went out before this tick and nothing acknowledged them: exhausted *)
+                                t_dead := t_dead t || ((1 + maxrt <=? t_copies t) && negb (t_acked t)) |}) ts
     | _ => ts
     end in
   (* 2. what must come back at this event *)
